@@ -11,6 +11,9 @@ from .trace import Trace
 from .wfgen import WModel, gen_model, new_target
 from .world import World
 
+SUBMIT_EXE = {"slurm": "sbatch", "sge": "qsub", "lsf": "bsub", "local": "enqueue_task"}
+K3_CLASSES = ("kill:K3", "reply_eof:submit", "reply_rst:submit", "reply_garbage:submit")
+
 STATUS_NAMES = ["shouldrun", "submitted", "running", "completed", "failed", "cancelled"]
 
 OPTION_POOLS = {
@@ -57,6 +60,12 @@ def draw_knobs(rng: Rng, profile: dict):
     )
     if not kn["accounting"]:
         kn["acct_lag"] = False
+    if profile.get("p_huge") and kr.chance(profile["p_huge"]):
+        # a few runs use workflows of hundreds of targets in long chains with far-apart diamonds (caches,
+        # memo tables and anything else whose behaviour depends on size); short histories keep them affordable
+        kn["n_targets"] = kr.pick([140, 200, 260])
+        kn["chainy"] = 0.9
+        kn["max_ops"] = kr.pick([3, 5, 8])
     kn.update(profile.get("force_knobs", {}))
     return kn
 
@@ -80,7 +89,8 @@ class WorldScenario:
             self.model = gen_model(mr, self.knobs["n_targets"], OPTION_POOLS.get(self.knobs["backend"]),
                                    p_no_outputs=profile.get("p_no_outputs", 0.1), subdir=True,
                                    protect=profile.get("protect", False),
-                                   exotic_shapes=profile.get("exotic_shapes", True))
+                                   exotic_shapes=profile.get("exotic_shapes", True),
+                                   chainy=self.knobs.get("chainy", 0.0))
             self.knobs["model"] = self.model.to_json()
             self.script = None
         self.ops = []
@@ -88,6 +98,77 @@ class WorldScenario:
         self.trace.log("seed", seed=self.seed, knobs={k: v for k, v in self.knobs.items() if k != "model"})
         self.violation = None
         self.extra = {}
+
+    # ------------------------------------------------------------------ classification of a fault point
+    @staticmethod
+    def classify(fault, seams, backend):
+        """Interruption class used in violation signatures (stable under minimisation).
+        seams: (kind, detail, is_state_file) of the seam events of the invocation."""
+        if "cmd_faults" in fault:
+            exe, k, kind = fault["cmd_faults"][0][:3]
+            if exe == "sock":
+                return f"reply_{kind}:{fault.get('what', 'query')}"
+            what = "submit" if exe == SUBMIT_EXE[backend] else "query"
+            return f"cmd_fail:{kind}:{what}"
+        if "intr_at" in fault:
+            k = fault["intr_at"]
+            if k - 1 >= len(seams):
+                return "none"
+            return "ctrl_c_in_save" if seams[k - 1][2] else "ctrl_c"
+        if "io_fault" in fault:
+            k = fault["io_fault"][0]
+            if k - 1 >= len(seams):
+                return "none"
+            return "io_error_in_save" if seams[k - 1][2] else "io_error"
+        if "kill_at" in fault:
+            k, when = fault["kill_at"]
+            if k - 1 >= len(seams):
+                return "none"
+            kind, detail, is_state = seams[k - 1]
+            if when == "after":
+                if kind == "sock:send":
+                    if is_state:
+                        return "kill:K2"
+                    return "kill:K3" if "enqueue_task" in detail else "kill:after_query"
+                return "kill:K3" if kind == "cmd:" + SUBMIT_EXE[backend] else "kill:after_query"
+            if ".journal" in detail and kind in ("fs:open_w", "fs:write"):
+                # between the scheduler's acceptance and the durable record of it: like K3, the id of
+                # that one job cannot be known to any later invocation
+                return "kill:K3"
+            if is_state:
+                return "kill:K2"
+            return "kill:K1"
+        return "none"
+
+    @staticmethod
+    def seam_triples(seam_log):
+        return [(k, d, "-backend-tracked.json" in d or "spec-hashes.json" in d or (k == "sock:send" and '"close"' in d))
+                for k, d in seam_log]
+
+    def _draw_fault(self, w, r, cmd):
+        """One fault for a `gwf <cmd>` invocation of a random history: where it lands is drawn relative to the
+        number of seam events of the latest complete run."""
+        import errno
+
+        n = max(3, w.last_run_seams + 2) if cmd == "run" else 8
+        k = 1 + r.randrange(n)
+        x = r.random()
+        if x < 0.35:
+            return {"kill_at": [k, "before"]}
+        if x < 0.55:
+            return {"kill_at": [k, "after"]}
+        if x < 0.65:
+            return {"intr_at": k}
+        if x < 0.72:
+            return {"io_fault": [k, errno.ENOSPC]}
+        if w.cluster is not None:
+            exes = {"slurm": ["sbatch", "squeue", "sacct"], "sge": ["qsub", "qstat"], "lsf": ["bsub", "bjobs"]}[w.cluster.flavour]
+            exe = r.pick(exes)
+            kind = r.pick(["F1", "F2", "F3", "F4"])
+            if r.chance(0.4):  # the scheduler is unreachable for the whole invocation
+                return {"cmd_faults": [[exe, i, kind] for i in (1, 2, 3, 4)]}
+            return {"cmd_faults": [[exe, 1 + r.randrange(3), kind]]}
+        return {"cmd_faults": [["sock", 1 + r.randrange(4), r.pick(["garbage", "eof", "rst"])]]}
 
     # ------------------------------------------------------------------ generation helpers
     def _patterns(self, w, r):
@@ -145,6 +226,15 @@ class WorldScenario:
         add("dry_run", {"op": "gwf", "argv": ["run", "--dry-run"] + self._patterns(w, r), "cwd": cwd})
         add("triple", {"op": "triple", "patterns": self._patterns(w, r), "cwd": cwd})
         add("gwf_cancel", {"op": "gwf", "argv": ["cancel", "-f"] + self._patterns(w, r), "cwd": cwd})
+        if wt.get("faulted", 0) > 0:
+            # an interrupted or failing invocation in the middle of the history; a second one right after the
+            # first is made more likely (state that only the journal of a killed run holds is the fragile one)
+            fcmd = r.weighted([(6, "run"), (2, "status"), (1, "cancel")])
+            fargv = {"run": ["run"], "status": ["status"], "cancel": ["cancel", "-f"]}[fcmd] + \
+                (self._patterns(w, r) if fcmd != "status" else [])
+            after_fault = w.last_gwf_faulted
+            add("faulted", {"op": "gwf", "argv": fargv, "cwd": cwd, "fault": self._draw_fault(w, r, fcmd)},
+                4.0 if after_fault else 1.0)
         if w.cluster is not None:
             cl = w.cluster
             ours = [j for j in cl.jobs.values() if not j.foreign]
@@ -368,9 +458,71 @@ class WorldScenario:
         pass
 
     # ---- gwf commands with their oracles -------------------------------------------------------
+    def _gwf_faulted(self, w, op):
+        """An invocation of the history that is interrupted or whose scheduler commands fail.  No plan or table
+        oracle applies to it; the reference models are brought up to date with what the scheduler accepted, and
+        the invocations that follow are checked as usual."""
+        argv, fault = op["argv"], op["fault"]
+        backend = self.knobs["backend"]
+        hashes0 = w.read_hashes() if w.hashing else None
+        pre_hash = set(hashes0) if isinstance(hashes0, dict) else set()
+        live_before = {n: w.latest[n] for n in w.model.targets if w.observable(n) in ("submitted", "running", "live")}
+        latest_before, gen_before = dict(w.latest), dict(w.latest_gen)
+        was_faulted = w.last_gwf_faulted
+        res = w.gwf(argv, op.get("cwd", "root"), kill_at=fault.get("kill_at"), intr_at=fault.get("intr_at"),
+                    io_fault=fault.get("io_fault"), cmd_faults=[tuple(f[:3]) for f in fault.get("cmd_faults", ())])
+        w.probe("faulted_invocations")
+        if was_faulted:
+            w.probe("consecutive_faulted_invocations")
+        f2 = dict(fault)
+        if fault.get("cmd_faults") and fault["cmd_faults"][0][0] == "sock":
+            sends = [d for k, d in w.seam_log if k == "sock:send" and ("enqueue_task" in d or "get_task_states" in d)]
+            kk = fault["cmd_faults"][0][1]
+            f2["what"] = "submit" if kk <= len(sends) and "enqueue_task" in sends[kk - 1] else "query"
+        cls = WorldScenario.classify(f2, self.seam_triples(w.seam_log), backend)
+        if "kill_at" in fault and not res.killed:
+            cls = "none"
+        if res.accepted:
+            w.probe("faulted_invocations_with_accepted_jobs")
+        if live_before and argv[0] == "run":
+            w.probe("faulted_runs_with_jobs_in_flight")
+        # the scheduler accepted a job whose id gwf cannot know: that target is exempt from "no duplicate"
+        if cls in K3_CLASSES and res.accepted:
+            name, jid, deps = res.accepted[-1]
+            w.k3_lost.add(name)
+            w.probe("unknowable_job_ids")
+            # back to the job gwf knew before this invocation (not to an earlier job it could not know either)
+            if name in latest_before:
+                w.latest[name] = latest_before[name]
+                if w.local is not None and name in gen_before:
+                    w.latest_gen[name] = gen_before[name]
+            else:
+                w.latest.pop(name, None)
+        dups = sorted(a[0] for a in res.accepted if a[0] in live_before)
+        if dups:
+            for p in ("C02", "C05", "C08", "C09"):
+                w.flag(p, "duplicate_submission",
+                       f"gwf {' '.join(argv)} interrupted by {cls} submitted {dups} again although their jobs "
+                       f"{[live_before[d] for d in dups]} are still pending/running", interruption=cls, during=True)
+        if w.hashing:
+            hashes = w.read_hashes()
+            if isinstance(hashes, dict):
+                bad = sorted(set(hashes) - pre_hash - {a[0] for a in res.accepted})
+                if bad and argv[0] == "run":
+                    for p in ("C09", "C18"):
+                        w.flag(p, "hash_without_acceptance", f"spec hash recorded for {bad} whose submission was not "
+                               f"accepted ({cls})", interruption=cls)
+                # which of the accepted targets got their record before the interruption is not pinned down
+                w.m_hash = dict(hashes)
+            elif hashes is None:
+                w.m_hash = {}
+        return res
+
     def _gwf(self, w, op):
         argv = op["argv"]
         cmd = argv[0]
+        if op.get("fault"):
+            return self._gwf_faulted(w, op)
         if cmd == "status" and len(argv) == 1:
             before = w.snapshot() if "C05" in w.props else None
             jb = len(w.cluster.journal) if w.cluster else 0
